@@ -42,6 +42,12 @@ def dquote : List Char → List Char → List Char × List Char
     else dquote (acc ++ [c]) cs
 termination_by _ cs => cs.length
 
+/-- the optional sign of an exponent -/
+def expSign : List Char → List Char × List Char
+  | '-' :: r => (['-'], r)
+  | '+' :: r => ([], r)
+  | r => ([], r)
+
 def lexNumber (x : Char) (cs : List Char) : Tok × List Char :=
   let (int, r1) := if x != '.' then (let (d, r) := span isDec cs; (x :: d, r)) else (['0'], cs)
   let hasDot := x == '.' || r1.head? == some '.'
@@ -51,10 +57,7 @@ def lexNumber (x : Char) (cs : List Char) : Tok × List Char :=
   match r3 with
   | e :: r4 =>
     if e == 'e' || e == 'E' then
-      let (sign, r5) := match r4 with
-        | '-' :: r => (['-'], r)
-        | '+' :: r => ([], r)
-        | _ => ([], r4)
+      let (sign, r5) := expSign r4
       let (ed, r6) := span isDec r5
       let buf := sign ++ ed
       (.number (str int) frac (if buf.isEmpty then none else some (str buf)), r6)
